@@ -761,7 +761,7 @@ def cfg_key(case, r):
 
 def unit_roundtrip(ctx, pool):
     cases = []
-    n = 8000 if ctx.thorough else (1500 if ctx.escalated() else 400)
+    n = 4000 if ctx.thorough else (1500 if ctx.escalated() else 400)
     # systematic sweep: every compressor x dtype x rechunk x executor on small streams
     for comp in range(4):
         for v in range(4):
@@ -779,14 +779,14 @@ def unit_roundtrip(ctx, pool):
 
 def unit_malformed(ctx, pool):
     cases = []
-    for _ in range(2000 if ctx.thorough else 160):
+    for _ in range(1000 if ctx.thorough else 160):
         st = gen_stream(ctx.rng, small=ctx.rng.random() < 0.5)
         st, kind = malform(ctx.rng, st)
         case = base_case(ctx.rng, st, ai=ctx.rng.choice([0, 0, 1]), driver="save_from")
         case["kind"] = kind
         cases.append(case)
     # metadata handed to the saver that disagrees with the chunks, and allow_incomplete on good data
-    for _ in range(400 if ctx.thorough else 40):
+    for _ in range(200 if ctx.thorough else 40):
         st = gen_stream(ctx.rng, small=True)
         case = base_case(ctx.rng, st, ai=ctx.rng.randint(0, 1))
         if ctx.rng.random() < 0.5:
@@ -798,7 +798,7 @@ def unit_malformed(ctx, pool):
 
 def unit_tamper(ctx, pool):
     cases = []
-    for _ in range(4000 if ctx.thorough else 300):
+    for _ in range(2000 if ctx.thorough else 300):
         st = gen_stream(ctx.rng, small=ctx.rng.random() < 0.5)
         case = base_case(ctx.rng, st, ai=ctx.rng.choice([0, 0, 0, 1]), driver="save_from")
         t = gen_tamper(ctx.rng, len(st))
@@ -814,13 +814,13 @@ def unit_tamper(ctx, pool):
 
 def unit_forked(ctx, pool):
     cases = []
-    n = 600 if ctx.thorough else 50
+    n = 300 if ctx.thorough else 50
     for i in range(n):
         st = gen_stream(ctx.rng, small=True)
         order = list(range(len(st)))
         ctx.rng.shuffle(order)
         case = base_case(ctx.rng, st, forked=1, order=order, driver="save_from", rechunk=0, sexec=0)
-        case["realfork"] = 1 if i < (40 if ctx.thorough else 4) else 0     # real child processes for a few
+        case["realfork"] = 1 if i < (20 if ctx.thorough else 4) else 0     # real child processes for a few
         cases.append(case)
     run_batch(ctx, "forked", cases, lambda c, r: len(c["stream"]) >= 2,
               lambda c, r: "children=%d%s save=%s load=%s" % (len(c["order"]), " fork" if c.get("realfork") else "", r["save"], r["load"]), pool)
